@@ -23,7 +23,7 @@ import (
 //   Tables.v            destination_reads   (function, expression, class) of every use of the *http.Request inside the
 //                                           destination function(s) (the functions whose result classifyRedirectTarget
 //                                           calls "filtered") and, transitively, the package functions they pass the
-//                                           request to.  class: form | method | cookie | header | url | body | escapes | other
+//                                           request to.  class: form | method | context | remote | cookie | header | url | body | escapes | other
 // The harness puts hostile values into every harvested cookie and into headers / bodies / paths named after every
 // harvested parameter; the obligation c17_filter_reads demands that the destination function reads the form only
 // (the model's get_login_destination is a function of the form/query channel alone).
@@ -160,8 +160,12 @@ func c17RequestUseClass(sel string) string {
 	switch sel {
 	case "FormValue", "PostFormValue", "Form", "PostForm", "ParseForm", "ParseMultipartForm", "MultipartForm", "FormFile":
 		return "form"
-	case "Method":
+	case "Method", "Proto", "ProtoMajor", "ProtoMinor", "TLS":
 		return "method"
+	case "Context", "WithContext":
+		return "context"
+	case "RemoteAddr":
+		return "remote"
 	case "Cookie", "Cookies":
 		return "cookie"
 	case "Header", "Referer", "UserAgent", "BasicAuth", "Trailer":
@@ -271,7 +275,7 @@ func c17DestinationReads(p *pkgFiles, consts map[string]string) ([]row, []string
 func c17ChannelTables(v *bytes.Buffer, out string, kmd *pkgFiles) {
 	consts := c17StringConsts(kmd)
 	rows, params := c17DestinationReads(kmd, consts)
-	writeTable(v, "destination_reads", "(function, expression, class) of every use of the request inside the destination function(s) and the package functions they hand it to (c17_channels.go); class: form | method | cookie | header | url | body | escapes | other", 3, rows)
+	writeTable(v, "destination_reads", "(function, expression, class) of every use of the request inside the destination function(s) and the package functions they hand it to (c17_channels.go); class: form | method | context | remote | cookie | header | url | body | escapes | other", 3, rows)
 	h := c17Channels{CookieNames: c17CookieNames(kmd, consts), DestinationParams: params}
 	if b, err := json.MarshalIndent(h, "", " "); err == nil {
 		os.WriteFile(filepath.Join(out, "c17_channels.json"), b, 0644)
